@@ -12,6 +12,7 @@ import (
 )
 
 func init() {
+	vRegister("H_C17_digest_foreign", H_C17_digest_foreign)
 	vRegister("H_C17_signer_matrix", H_C17_signer_matrix)
 	vRegister("H_C17_verifier_matrix", H_C17_verifier_matrix)
 	vRegister("H_C17_digest_ecdsa", H_C17_digest_ecdsa)
@@ -205,4 +206,67 @@ func H_C17_ed25519() {
 	var _ ed25519.PublicKey
 	var _ *ecdsa.PublicKey
 	var _ *rsa.PublicKey
+}
+
+// wrappedKey: a foreign crypto.Signer (HSM / KMS style) around a genuine key; records what it is asked to sign
+type wrappedKey struct {
+	inner crypto.Signer
+	got   []byte
+	hash  crypto.Hash
+	calls int
+}
+
+func (w *wrappedKey) Public() crypto.PublicKey { return w.inner.Public() }
+func (w *wrappedKey) Sign(r io.Reader, d []byte, o crypto.SignerOpts) ([]byte, error) {
+	w.calls++
+	w.got = d
+	if o != nil {
+		w.hash = o.HashFunc()
+	}
+	return w.inner.Sign(r, d, o)
+}
+
+// the same equivalence when the key sits behind a foreign crypto.Signer: it is handed exactly the
+// digest of the content under the algorithm's hash, and what it returns verifies through both entry points
+func H_C17_digest_foreign() {
+	var alg Algorithm
+	var inner crypto.Signer
+	var pub crypto.PublicKey
+	if vChoose("family", 2) == 0 {
+		alg = []Algorithm{AlgorithmES256, AlgorithmES384, AlgorithmES512}[vChoose("alg", 3)]
+		key := vECKeyValid("key", vCurve("curve"))
+		inner, pub = key, &key.PublicKey
+	} else {
+		alg = []Algorithm{AlgorithmPS256, AlgorithmPS384, AlgorithmPS512}[vChoose("alg", 3)]
+		key := vRSAKeyValid("key")
+		inner, pub = key, &key.PublicKey
+	}
+	wk := &wrappedKey{inner: inner}
+	signer, err := NewSigner(alg, wk)
+	vAssume(err == nil)
+	verifier, err := NewVerifier(alg, pub)
+	vAssume(err == nil)
+	content := vBlob("content")
+	digest := vHash(refHashOfAlg(int64(alg)), content)
+	ds, ok := signer.(DigestSigner)
+	vAssume(ok)
+	var sig []byte
+	if vChoose("entry", 2) == 0 {
+		sig, err = signer.Sign(vRand(), content)
+	} else {
+		sig, err = ds.SignDigest(vRand(), digest)
+	}
+	if wk.calls > 0 {
+		vAssert("foreign: the key is handed exactly the digest of the content under the algorithm's hash", vRopeEq(wk.got, digest))
+	}
+	if err != nil {
+		vAssert("foreign: no bytes with an error", sig == nil)
+		vReach("sign failed")
+		return
+	}
+	vAssert("foreign: verifies through Verify", verifier.Verify(content, sig) == nil)
+	if dv, ok := verifier.(DigestVerifier); ok {
+		vAssert("foreign: verifies through VerifyDigest", dv.VerifyDigest(digest, sig) == nil)
+	}
+	vReach("end")
 }
